@@ -103,3 +103,61 @@ func ValidateTrace(c *core.Ctx, module, cfg, traceFile string, o tlc.Options) (b
 }
 
 func ReadFile(p string) ([]byte, error) { return os.ReadFile(p) }
+
+// TraceRejection is the first event of a group that TLC could not explain.
+type TraceRejection struct {
+	Group int // index into the groups slice passed to ValidateGroups
+	Index int // index of the unexplained event in that group
+}
+
+// ValidateGroups has TLC validate groups of events (one object / connection
+// each) against a trace specification whose TReset action consumes the
+// {"ev":"Reset"} line written before every group. A rejected group is reported
+// and removed, and the rest re-validated, so every group gets a verdict.
+func ValidateGroups(c *core.Ctx, module, cfg string, groups [][]map[string]any, label string) (accepted int, rej []TraceRejection) {
+	type ref struct{ g, i int }
+	start := 0
+	for round := 0; round < 20 && start < len(groups); round++ {
+		var lines []any
+		var index []ref
+		for gi := start; gi < len(groups); gi++ {
+			lines = append(lines, map[string]any{"ev": "Reset"})
+			index = append(index, ref{gi, -1})
+			for i, e := range groups[gi] {
+				lines = append(lines, e)
+				index = append(index, ref{gi, i})
+			}
+		}
+		f := fmt.Sprintf("%s/trace-%s-%d.ndjson", c.Tmp, label, round)
+		if err := tlc.WriteNDJSON(f, lines); err != nil {
+			c.Broken("cannot write trace: %v", err)
+			return
+		}
+		ok, res := ValidateTrace(c, module, cfg, f, tlc.Options{Timeout: 5 * 60e9})
+		if res == nil {
+			return
+		}
+		if ok {
+			accepted += len(groups) - start
+			return
+		}
+		if !res.PostFalse {
+			c.Broken("trace validation %s: TLC failed: %s", label, FirstLines(res.ErrorText, 6))
+			return
+		}
+		bad := res.Depth - 1
+		if bad < 0 || bad >= len(index) {
+			c.Broken("trace validation %s: cannot locate rejection (depth %d of %d lines)", label, res.Depth, len(lines))
+			return
+		}
+		p := index[bad]
+		i := p.i
+		if i < 0 {
+			i = 0
+		}
+		rej = append(rej, TraceRejection{Group: p.g, Index: i})
+		accepted += p.g - start
+		start = p.g + 1
+	}
+	return
+}
